@@ -584,8 +584,21 @@ def match_candidates_sample(
         cost_matrix_np = cost_matrix.numpy()
         cost_matrix_np[np.isnan(cost_matrix_np)] = np.inf
 
+        # Candidates without a finite score (e.g., zero-length lines between coincident
+        # peaks) cannot be matched. Give them a finite cost worse than any combination
+        # of scored candidates so that the assignment problem is always feasible, then
+        # discard them if they were selected.
+        infeasible = ~np.isfinite(cost_matrix_np)
+        solver_cost = cost_matrix_np
+        if infeasible.any():
+            worst_cost = 2 * (np.abs(cost_matrix_np[~infeasible]).sum() + 1)
+            solver_cost = np.where(infeasible, worst_cost, cost_matrix_np)
+
         # Match.
-        match_src_inds, match_dst_inds = linear_sum_assignment(cost_matrix_np)
+        match_src_inds, match_dst_inds = linear_sum_assignment(solver_cost)
+        is_scored = ~infeasible[match_src_inds, match_dst_inds]
+        match_src_inds = match_src_inds[is_scored]
+        match_dst_inds = match_dst_inds[is_scored]
 
         # Pull out matched scores from the numpy cost matrix.
         match_line_scores_k = -cost_matrix_np[
